@@ -71,7 +71,7 @@ inductive Proc | rl (b : BId) | inst (i : IId) | ext
 
 /-- handler kinds: ordinary async function, ordinary sync function, `other_bus.dispatch` (forwarding),
     the temporary handler of `expect()` -/
-inductive HKind | async | sync | forward (target : BId) | expect
+inductive HKind | async | sync | forward (target : BId) | expect (x : Nat) (pred : Nat)
   deriving DecidableEq, Repr, Inhabited
 
 def HKind.isForward : HKind → Bool | .forward _ => true | _ => false
@@ -90,6 +90,7 @@ structure Reg where
 /-- `EventBus` (bubus/service.py) -/
 structure Bus where
   handlers : List Reg := []          -- registration order (per key the code keeps a list; see `applicable`)
+  everRegs : List Reg := []          -- ghost: every registration ever made (a removed expect() handler may still be scheduled)
   queue : List EId := []             -- event_queue, head first
   hist : List EId := []              -- event_history keys, insertion order
   parallel : Bool := false
@@ -102,6 +103,9 @@ structure Bus where
   shutdown : Bool := false           -- queue._is_shutdown
   unfinished : Nat := 0              -- queue._unfinished_tasks
   idle : Bool := false               -- _on_idle.is_set()
+  woke : Bool := false               -- the run loop resumed after its queue.get() returned (step() cleared the idle flag)
+  cancelReq : Bool := false          -- the run loop task has a pending cancellation (stop() after its grace period, or task.cancel())
+  removed : Bool := false            -- stop(clear=True): removed from EventBus.all_instances
   deriving Repr, Inhabited
 
 /-- one `process_event(bus, ev)` in progress -/
@@ -139,11 +143,22 @@ structure Inst where
   iters : Nat := 0                   -- iterations of the inline polling loop of the current await
   deriving Repr, Inhabited
 
+/-- control state of an external task blocked in one of the bus's blocking calls -/
+inductive WSt
+  | idle                                             -- not inside a blocking bus call
+  | join (b : BId) (sawZero sawIdle : Bool)          -- wait_until_idle: awaiting queue.join() (both observations are sticky)
+  | idleWait (b : BId) (sawIdle : Bool)              -- wait_until_idle: awaiting _on_idle.wait()
+  | check (b : BId)                                  -- wait_until_idle: after the sleep(0), about to re-check
+  | stopping (b : BId) (deadline : Nat) (clear : Bool) -- stop(): waiting (at most 0.1 s) for the run loop to finish
+  | expecting (b : BId) (key : Key) (k : HId) (deadline : Nat) (got : Option EId)  -- expect(): temporary handler k installed
+  deriving DecidableEq, Repr, Inhabited
+
 structure Config where
   hardLimit : Nat := 100
   queueMax : Nat := 50
   maxPoll : Nat := 1000
   recursionLimit : Nat := 2
+  stopGrace : Nat := 128            -- 0.1 s in ticks of 1/1280 s
   deriving Repr, Inhabited
 
 structure World where
@@ -157,6 +172,8 @@ structure World where
   ne : Nat := 0                      -- events are 0 … ne-1
   ni : Nat := 0                      -- instances are 0 … ni-1
   now : Nat := 0
+  waiter : Nat → WSt := fun _ => .idle -- external tasks
+  nx : Nat := 0                      -- external tasks are 0 … nx-1
 
 instance : Inhabited World := ⟨{}⟩
 
@@ -173,6 +190,8 @@ def World.setNow (w : World) (t : Nat) : World := { w with now := t }
 def World.setNb (w : World) (n : Nat) : World := { w with nb := n }
 def World.setNe (w : World) (n : Nat) : World := { w with ne := n }
 def World.setNi (w : World) (n : Nat) : World := { w with ni := n }
+def World.setWaiter (w : World) (x : Nat) (s : WSt) : World :=
+  { w with waiter := fun x' => if x' = x then s else w.waiter x', nx := max w.nx (x + 1) }
 
 def World.modBus (w : World) (b : BId) (f : Bus → Bus) : World := w.setBus b (f (w.bus b))
 def World.modEv (w : World) (e : EId) (f : Ev → Ev) : World := w.setEv e (f (w.ev e))
